@@ -15,6 +15,7 @@ from harness import checklib  # noqa: E402
 
 def run(c):
     pe.run_design(c, histories=False)
+    pe.replay_design_walks(c, every=1 if c.thorough else 3)
     K = 3 if c.thorough else 2
     cases = []
     nh = 0
